@@ -969,7 +969,7 @@ def run_property(ctx, pid, invariants, properties, quick_programs, thorough_prog
             ctx.sample({"program": bn, "history": [(e["a"], e["args"]) for e in json.loads(lines[0])["ev"][:15]]})
     # (5) overlapping transactions: B inside A at every statement boundary of A must give the tables of A;B or B;A
     if overlap:
-        st = interleave_stage(ctx, pid, overlap, budget_s=(20 if ctx.quick else 300), all_pairs=not ctx.quick)
+        st = interleave_stage(ctx, pid, overlap, budget_s=(30 if ctx.quick else 400), all_pairs=not ctx.quick)
         total_steps += st["scenarios"]
         if st["ran_inside"] == 0 and not ctx.viol:
             raise RuntimeError(f"overlapping-transactions stage: no intruder ever ran inside a transaction ({st})")
@@ -1018,7 +1018,7 @@ def _args_of(lab):
     return name, [str(a) if isinstance(a, tlaval.Sym) else a for a in args]
 
 
-def interleave_stage(ctx, pid, names, *, budget_s, all_pairs=False, max_k=40, pairs_per_state=6, dup_only=None):
+def interleave_stage(ctx, pid, names, *, budget_s, all_pairs=False, max_k=40, pairs_per_state=2, dup_only=None):
     """dup_only: restrict to A = B (the same request delivered twice) for the named actions."""
     from vlib.minimysql.isolation import Interleaving
 
@@ -1091,6 +1091,7 @@ def interleave_stage(ctx, pid, names, *, budget_s, all_pairs=False, max_k=40, pa
                     by_kind.setdefault(("Compact", na), []).append(node)
         kinds = sorted(by_kind)
         rng.shuffle(kinds)
+        kind_strata = {}
         deadline = time.time() + per
         done_pairs = set()
         nsc = 0
@@ -1102,7 +1103,20 @@ def interleave_stage(ctx, pid, names, *, budget_s, all_pairs=False, max_k=40, pa
             rounds += 1
             if rounds > 200000:
                 break
-            node = rng.choice(by_kind[kd])
+            # stratified by the class of the state (job states, cancelled flags, update states, cancelled groups): the turns of a kind
+            # go to different situations first
+            strata = kind_strata.get(kd)
+            if strata is None:
+                groups = {}
+                for nd_ in by_kind[kd]:
+                    st_ = g.nodes[nd_]
+                    groups.setdefault((repr(st_.get("js")), repr(st_.get("jc")), repr(st_.get("us")), repr(st_.get("canc"))), []).append(nd_)
+                order_ = sorted(groups)
+                rng.shuffle(order_)
+                strata = kind_strata[kd] = {"groups": groups, "order": order_, "i": 0}
+            cls_ = strata["order"][strata["i"] % len(strata["order"])]
+            strata["i"] += 1
+            node = rng.choice(strata["groups"][cls_])
             wk = path_to(node)
             pos = len(wk)
             edges = sorted(out.get(node, ()))
